@@ -49,3 +49,23 @@ func VerifC07SyslogFraming() {
 	verifrt.AssertEqStr("c07.sshd.pid", capt.got[0].PID, pid)
 	verifrt.AssertEqStr("c07.sshd.message", capt.got[0].Message, msg)
 }
+
+// C11 at the ingester ("any byte string presented as an sshd log line with any PID token"): the
+// PID token and the message the ingester hands to the processor are verbatim substrings of the
+// line, so what the processor extracts verbatim from the message (C11's processor-level runs) is
+// verbatim text of the line; no error, no panic, exactly one hand-over per line.
+func VerifC11IngesterLine() {
+	N := verifrt.Param("N", 8)
+	line := verifrt.Str("line", 0, N, `[^\n]`)
+	capt := &verifCapture{}
+	s := NewSyslogIngester("unused", capt, namedpipe.NewNamedPipeIngester(zap.NewNop().Sugar(), health.NewHealth()))
+	err := s.Process(context.Background(), line+"\n")
+	verifrt.Reach("c11.ingester.processed")
+	verifrt.Assert("c11.ingester.no-error", err == nil)
+	verifrt.Assert("c11.ingester.one-entry", len(capt.got) == 1)
+	if len(capt.got) != 1 {
+		return
+	}
+	verifrt.Assert("c11.ingester.pid-verbatim", verifrt.IsSubstring(line, capt.got[0].PID))
+	verifrt.Assert("c11.ingester.message-verbatim", verifrt.IsSubstring(line, capt.got[0].Message))
+}
